@@ -90,6 +90,9 @@ def generate(rng):
         scn['sched'] = [rng.randint(0, 3) for _ in range(rng.randint(1, 8))]
     scn['logs'] = rng.choice([[], ['logfile_read'], ['logfile'], ['logfile', 'logfile_read']])
     scn['drain'] = rng.choice(['read', 'expect_eof', 'expect_each'])
+    if tr in ('fd', 'pty') and rng.random() < 0.35:
+        scn['async'] = True          # the asyncio path: awaited expect under the virtual-time loop
+        scn['drain'] = rng.choice(['expect_eof', 'expect_each'])
     return scn
 
 
@@ -112,6 +115,10 @@ def enumerate_scenarios(tier, seed):
                         if tr == 'popen':
                             scn['sched'] = [0, 1, 1, 0, 2]
                         out.append(scn)
+                        if tr in ('fd', 'pty') and how == 'split_write':
+                            s2 = dict(scn)
+                            s2['async'] = True
+                            out.append(s2)
     return out
 
 
@@ -172,8 +179,44 @@ def run(scn):
         st = child.string_type
         got = st()
         drain = scn.get('drain', 'read')
+        loop = None
+        if scn.get('async'):
+            from . import aioloop
+            import asyncio
+            aioloop.install()
+            loop = aioloop.SimLoop()
+            loop.set_exception_handler(lambda lp, ctx: None)
+            orig_log = child._log
+
+            def logged(s_, direction):
+                if direction == 'read':
+                    child.chunks.append(s_)
+                return orig_log(s_, direction)
+            child._log = logged
+            child._rec_via_log = True
+
+            async def adrain():
+                acc = st()
+                if drain == 'expect_each':
+                    for _ in range(3):
+                        try:
+                            await child.expect(r.conv('.') if enc is None else u'.', async_=True)
+                            acc += child.before + child.after
+                        except EOF:
+                            return acc + child.before
+                await child.expect(EOF, async_=True)
+                return acc + child.before
         try:
-            if drain == 'read':
+            if loop is not None:
+                try:
+                    got = loop.run_until_complete(adrain())
+                finally:
+                    loop.detach_all()
+                    try:
+                        loop.close()
+                    except Exception:
+                        pass
+            elif drain == 'read':
                 got = child.read()
             elif drain == 'expect_eof':
                 child.expect(EOF)
